@@ -487,7 +487,12 @@ var LogFunc = function.New(&function.Spec{
 			return cty.UnknownVal(cty.String), err
 		}
 
-		return cty.NumberFloatVal(math.Log(num) / math.Log(base)), nil
+		ret64 := math.Log(num) / math.Log(base)
+		if math.IsNaN(ret64) {
+			// (logarithm of a negative number, 0/0, Inf/Inf ...); cty numbers cannot hold NaN
+			return cty.NilVal, fmt.Errorf("the logarithm of %s in base %s is not a number", args[0].AsBigFloat().Text('g', 10), args[1].AsBigFloat().Text('g', 10))
+		}
+		return cty.NumberFloatVal(ret64), nil
 	},
 })
 
@@ -517,7 +522,12 @@ var PowFunc = function.New(&function.Spec{
 			return cty.UnknownVal(cty.String), err
 		}
 
-		return cty.NumberFloatVal(math.Pow(num, power)), nil
+		ret64 := math.Pow(num, power)
+		if math.IsNaN(ret64) {
+			// (a negative number to a fractional power ...); cty numbers cannot hold NaN
+			return cty.NilVal, fmt.Errorf("%s to the power %s is not a number", args[0].AsBigFloat().Text('g', 10), args[1].AsBigFloat().Text('g', 10))
+		}
+		return cty.NumberFloatVal(ret64), nil
 	},
 })
 
